@@ -63,11 +63,43 @@ class C09(Prop):
                     (' (the joining task was cancelled; every member had finished, the group was not marked joined)' if not je['joined'] else ''))
         return None
 
+    def extra_checks(self, ctx):
+        """another task (a supervisor) calls cancel_remaining() on the group and may give up waiting for it, while or before the
+        group is joined: the members it cancelled are still members - join waits for them (oracle only: the model has no label
+        for a foreign cancel_remaining)"""
+        from harness.core import Failure
+        rng = ctx['rng']
+        out, n = [], 0
+        for i in range(60 if ctx['tier'] == 'quick' else 600):
+            nm = rng.randrange(1, 4)
+            members = [{'react': rng.choice(['slow', 'slow', 'reraise', 'swallow']), 'daemon': False} for _ in range(nm)]
+            if rng.random() < 0.3:
+                members.append({'react': rng.choice(['slow', 'reraise']), 'daemon': True})
+            acts = [['tick']] * rng.randrange(0, 4) + [['cancelrem']] + [['tick']] * rng.randrange(0, 6)
+            if rng.random() < 0.6:
+                acts += [['abandonrem']] + [['tick']] * rng.randrange(0, 4)
+            acts += [['start']] + [['tick']] * rng.randrange(2, 12)
+            for _ in range(4):
+                acts += [['finish2', rng.randrange(4)]] + [['tick']] * rng.randrange(1, 8)
+            acts += [['tick']] * 30
+            case = {'policy': rng.choice(['all', 'any', 'object', 'none']), 'retain': False, 'init': [],
+                    'mode': rng.choice(['join', 'aexit', 'aexit_exc']), 'members': members, 'actions': acts}
+            obs = tc.run_case(case)
+            n += 1
+            cl = self.oracle(case, obs)
+            if cl and not self.classify(case, obs, cl):
+                out.append(Failure(case, {k: obs[k] for k in ('join_end', 'final', 'joined', 'late_add', 'trace')}, cl))
+                if len(out) >= 2:
+                    break
+        ctx['extra_evals'] += n
+        ctx['notes'].append(f'groups on which another task calls cancel_remaining() (and may abandon the call) around the join: {n} runs')
+        return out
+
     def classify(self, case, obs, clause):
         je = obs['join_end'] or {}
         if 'joining task was cancelled while' in clause:
             return 'F12'
-        labs = [lab for lab, _ in obs['trace']]
+        labs = [lab for lab, _ in obs.get('trace', ())]
         first_pass = next((i for i, lab in enumerate(labs) if lab[0] == 'run' and lab[1] == ['J'] and len(lab) > 3 and lab[3] and lab[2]), None)
         if 'the group was not marked joined' in clause and first_pass is not None and any(
                 lab[0] == 'cancelJ' for lab in labs[first_pass:]):
